@@ -50,6 +50,7 @@ type config struct {
 	PreemptMax  int
 	Solver      string
 	StopOnVio   bool
+	Grace       time.Duration
 	Deadline    time.Duration
 	Samples     int
 	Seed        int64
@@ -386,6 +387,7 @@ func (e *engine) explore(spec string) *harnessReport {
 	work := [][]decision{nil}
 	active := 0
 	stopped := false
+	var firstNew time.Time
 	deadline := time.Now().Add(e.cfg.Deadline)
 	seenVio := map[string]bool{}
 
@@ -490,6 +492,17 @@ func (e *engine) explore(spec string) *harnessReport {
 			if e.cfg.StopOnVio && len(rep.Violations) > 0 && hasNewViolation(rep.Violations) {
 				stopped = true
 			}
+			// a tree that breaks the property can also blow the exploration up (code that is normally
+			// cut off by a check now runs on arbitrary data): once a violation outside every known class
+			// is on record, exploration goes on for a grace period only
+			if len(rep.Violations) > 0 && hasNewViolation(rep.Violations) {
+				if firstNew.IsZero() {
+					firstNew = time.Now()
+				} else if time.Since(firstNew) > e.cfg.Grace && (len(work) > 0 || active > 0) {
+					stopped = true
+					rep.Problems = append(rep.Problems, fmt.Sprintf("stopped %s after the first new violation with %d pending paths", e.cfg.Grace, len(work)))
+				}
+			}
 			mu.Unlock()
 			cond.Broadcast()
 		}
@@ -561,6 +574,7 @@ func main() {
 	preempt := flag.Int("preempt", 1000, "preemption bound in exploring mode")
 	solver := flag.String("solver", "z3", "z3 | z3-new | cvc5")
 	trace := flag.Bool("trace", false, "trace instructions")
+	grace := flag.Duration("violation-grace", 60*time.Second, "keep exploring this long after the first violation outside known classes")
 	stopVio := flag.Bool("stop-on-violation", false, "stop at the first new violation")
 	deadline := flag.Duration("deadline", 30*time.Minute, "wall-clock limit per harness")
 	samples := flag.Int("samples", 0, "emit up to N concrete representatives of completed paths (for native differential validation)")
@@ -587,7 +601,7 @@ func main() {
 	}
 	e.trace = *trace
 	e.cfg = config{Workers: *workers, TimeoutMs: *timeout, Unwind: *unwind, SplitMax: *split, MaxPaths: *maxPaths, MaxInstr: *maxInstr,
-		PermuteMaps: *permute, Explore: *explore, Race: *raceFlag, PreemptMax: *preempt, Solver: *solver, StopOnVio: *stopVio, Deadline: *deadline, Samples: *samples, Seed: *seed}
+		PermuteMaps: *permute, Explore: *explore, Race: *raceFlag, PreemptMax: *preempt, Solver: *solver, StopOnVio: *stopVio, Grace: *grace, Deadline: *deadline, Samples: *samples, Seed: *seed}
 
 	type outT struct {
 		LoadSecs float64          `json:"load_s"`
